@@ -250,6 +250,23 @@ def rule_out(ctx):
     argument_untouched(ctx, 'C03.out')
 
 
+def rule_shadow(ctx):
+    ctx.rule('C03.sync', 'a convenience method does not bind a local with the name of a module it then uses (late-imported unit modules such as '
+                         'pan, trg, lne): the attribute access would go to the local value and the method fails for every input')
+    m = ctx.repo.module('sc3.synth.ugen')
+    mods = {k for k in m.aliases}
+    n = 0
+    for q, f in sorted(m.functions.items()):
+        stores = {x.id for x in walk_local(f.node) if isinstance(x, ast.Name) and isinstance(x.ctx, ast.Store)} & mods
+        n += 1
+        for v in sorted(stores):
+            uses = [norm(x) for x in walk_local(f.node) if isinstance(x, ast.Attribute) and isinstance(x.value, ast.Name) and x.value.id == v
+                    and x.attr[:1].isupper()]
+            ctx.ob('C03.sync', f'{f.fq}:{v}:module-shadowed', not uses,
+                   f'{q} binds a local `{v}` and then reads {uses}: `{v}` is also the imported unit module, the class lookup hits the local value', f.node, m)
+    ctx.require(n >= 100, 'C03.sync', f'only {n} functions of sc3.synth.ugen analysed')
+
+
 def argument_untouched(ctx, rid):
     so = ctx.repo.cls('sc3.synth.ugen:SynthObject')
     f = so.methods['_replace_zeroes_with_silence']
@@ -341,6 +358,15 @@ def rule_core(ctx):
     ctx.ob('C03.core', f'{lb.module.name}:list_binop:tuple-opaque', 'tuple' not in norm(tseq[0].value),
            f'list_binop zips operands of the types {norm(tseq[0].value)}: ChannelList([a, b]) * (1, 2) gives [a * 1, b * 2], a tuple is expanded '
            f'like a list by channel-list arithmetic (unit-generator constructors and ChannelList() keep it opaque)', tseq[0], lb.module)
+    # a nested row keeps its own sequence type in every branch of the list algebra (a ChannelList row that comes back as a plain list
+    # makes the next operator Python list arithmetic: repetition and concatenation)
+    plain = [norm(x) for x in walk_local(lb.node) if isinstance(x, ast.Assign) and isinstance(x.value, ast.Name) and x.value.id == 'list'
+             and isinstance(x.targets[0], ast.Name) and x.targets[0].id != 't_seq']
+    typed = [norm(x) for x in walk_local(lb.node) if isinstance(x, ast.Assign) and isinstance(x.value, ast.Call) and norm(x.value.func) == 'type'
+             and x.value.args and isinstance(x.value.args[0], ast.Subscript)]
+    ctx.ob('C03.core', f'{lb.module.name}:list_binop:nested-row-type', not plain and len(typed) >= 2,
+           f'list_binop types a nested result row with {plain or typed}: it must be the type of the row itself (type(a[i]) / type(b[i])), '
+           f'as in the one-sequence branches', lb.node, lb.module)
     we = repo.func('sc3.base.utils:wrap_extend')
     ctx.ob('C03.core', f'{we.module.name}:wrap_extend', full(we.node).endswith('return lst * (n // l) + lst[:n % l]'),
            'wrap_extend must repeat cyclically to length n', we.node, we.module)
@@ -352,6 +378,7 @@ def rule_core(ctx):
 
 
 def run(ctx):
+    rule_shadow(ctx)
     # an expanded arithmetic unit re-derives its rate from its own inputs (shared clause with C01.rate): otherwise channel i of an
     # expanded MulAdd is not what the single call with element i returns
     ma = ctx.repo.try_func('sc3.synth.ugen:MulAdd._init_ugen')
@@ -367,6 +394,12 @@ def run(ctx):
 
 
 MUTANTS = [
+    dict(rule='C03.sync', name='UGen.blend shadows the pan module (fix reverted)', file='sc3/synth/ugen.py',
+         old="            pos = bi.linlin(frac, 0.0, 1.0, -1.0, 1.0)  # Not pan, the module.\n            if self.rate == 'audio':\n                return pan.XFade2.ar(self, other, pos)",
+         new="            pan = bi.linlin(frac, 0.0, 1.0, -1.0, 1.0)\n            if self.rate == 'audio':\n                return pan.XFade2.ar(self, other, pan)"),
+    dict(rule='C03.core', name='nested rows come back as plain lists (fix reverted)', file='sc3/base/utils.py',
+         old="                    if isinstance(a[i], t_seq):\n                        t2 = type(a[i])\n                    elif isinstance(b[i], t_seq):\n                        t2 = type(b[i])\n",
+         new="                    if isinstance(a[i], t_seq):\n                        t2 = list\n                    elif isinstance(b[i], t_seq):\n                        t2 = list\n"),
     dict(rule='C03.out', name='zero replacement writes into the given list (fix reverted)', file='sc3/synth/ugen.py',
          old="        res = []\n        for item in lst:\n            if isinstance(item, (int, float)) and item == 0.0:\n                res.append(silence)\n            elif isinstance(item, list):\n                res.append(cls._replace_zeroes_with_silence(item))\n            else:\n                res.append(item)\n        return res\n",
          new="        for i, item in enumerate(lst):\n            if isinstance(item, (int, float)) and item == 0.0:\n                lst[i] = silence\n            elif isinstance(item, list):\n                lst[i] = cls._replace_zeroes_with_silence(item)\n        return lst\n"),
